@@ -254,3 +254,4 @@ def r_conditions(rec):
 
 
 REPLAYERS["C02.conditions"] = r_conditions
+REPLAYERS["pyanalyze.stacked_scopes.extract_constraints"] = r_conditions
